@@ -448,6 +448,7 @@ def run_config(contract, cfg, facets="VCSTRN", prime=None, tier="quick", max_pat
                     break
             if hasattr(contract, "begin_call"):
                 contract.begin_call(c)
+            c.entry_measure = contract.measure(c, *args, **kwargs) if hasattr(contract, "measure") else None
             c.entry = c.snapshot()
             start = len(g.trace)
             opsnap = _snapshot_operands(c, args, kwargs)
